@@ -16,7 +16,16 @@ import (
 // Rng is splitmix64; every random choice of a driver derives from one seeded state.
 type Rng struct{ s uint64 }
 
-func NewRng(seed uint64) *Rng { return &Rng{s: seed*0x9E3779B97F4A7C15 + 0x1234567} }
+// NewRng scrambles the seed first: with splitmix64 the state advances by a constant, so
+// unscrambled neighbouring seeds would yield shifted copies of one stream.
+func NewRng(seed uint64) *Rng {
+	z := seed + 0x632BE59BD9B4E019
+	z = (z ^ (z >> 30)) * 0xBF58476D1CE4E5B9
+	z = (z ^ (z >> 27)) * 0x94D049BB133111EB
+	z ^= z >> 31
+	z = (z ^ (z >> 33)) * 0xFF51AFD7ED558CCD
+	return &Rng{s: z ^ (z >> 29)}
+}
 
 func (r *Rng) U64() uint64 {
 	r.s += 0x9E3779B97F4A7C15
